@@ -31,6 +31,8 @@
   EVERY TEXT (no well-formedness hypothesis): the list      create_text (hosts = the independent reader's
    `hostlist_create` returns denotes the spec's expansion    `Spec.classify s`.hosts₁; C15.create_iff_classify
                                                              says exactly which texts are accepted)
+  EVERY TEXT, second level: `hostlist_create` then          expand_text (hosts = `Spec.classify s`.hosts₂ when
+   `wcoll_expand`                                            the spec finds no problem at either level)
   `ShiftFits` (buffer of `hostrange_shift`) DISCHARGED     create_shift_fits, cli_shift_fits (every text of at
    under a bound on the text length                          most 10^15/16384 ≈ 6·10^10 bytes),
                                                              shift_fits_violation (which lists violate it: one
@@ -47,8 +49,12 @@
   NOT PROVED: the -x / ^file theorems hold inside the decidable domain `Targets.targetDomain` of
   C10 ∘ C02 ∘ C01's end-to-end theorem (exclusion names with digit tails ≤ 2^25 — beyond: open
   finding F01-X-BIGSUFFIX —, readable files of well-formed words); `find_of_text` likewise needs
-  `SmallName`; the SECOND level (`wcoll_expand`) is proved for rendered well-formed expressions
-  (`cli_targets_bounded`), for arbitrary byte strings only the first level (`create_text`) is;
+  `SmallName`; for arbitrary byte strings `create_text` / `expand_text` speak about
+  `hostlist_create` + `wcoll_expand` (the path of a WCOLL line and of a `-w` argument whose
+  comma-words do not start with white space); the per-comma-word path of `-w`
+  (`list_split`, `wcoll_arg_process` skipping leading `isspace`) is proved for rendered
+  well-formed expressions (`cli_targets_bounded`), and when the spec DOES find a second-level
+  problem the outcome (exit, or a name silently dropped for > 10240 ranges) is correspondence only;
   words with `:` / `@` / leading `-` `^` `/` are other options' syntax (C02, C09, C10).
 -/
 import PdshVerif.Hostlist.Lemmas
@@ -60,6 +66,7 @@ import PdshVerif.Hostlist.LemmasShift
 import PdshVerif.Hostlist.LemmasExpand
 import PdshVerif.Hostlist.LemmasCli
 import PdshVerif.Hostlist.LemmasClassify
+import PdshVerif.Hostlist.LemmasClassify2
 import PdshVerif.Hostlist.LemmasShiftFits
 import PdshVerif.Hostlist.LemmasContexts
 import PdshVerif.Hostlist.LemmasFindText
@@ -291,6 +298,20 @@ theorem create_text (cfg : Cfg) (h15 : cfg.fixUlongMax = true) (h16 : cfg.fixDig
     h.Good ∧ h.hosts = Spec.expandStr₁ s ∧ h.count = (Spec.expandStr₁ s).length :=
   create_hosts_classify cfg h15 h16 h18 h22 h23 s h hc
 
+/-- EVERY TEXT, SECOND LEVEL.  Whatever byte string `hostlist_create` accepted: if the independent
+    reader finds no problem in the first-level names either (`problems₂`) and no bound of a range
+    within the limits reaches 2^64-1 (`note64`), `wcoll_expand` (shift every host out, push it
+    again as an expression of its own) leaves a well-formed list that denotes exactly the spec's
+    FULL expansion `hosts₂` — a second pair of brackets expanded for every name of the first, in
+    order, plain names unchanged.  (`hlen`: the text is at most 10^15/16384 bytes, which gives
+    `ShiftFits`.) -/
+theorem expand_text (cfg : Cfg) (h15 : cfg.fixUlongMax = true) (h16 : cfg.fixDigits = true)
+    (h18 : cfg.fixCurTok = true) (h22 : cfg.fixSuffixBal = true) (h23 : cfg.fixHostBuf = true)
+    (s : Str) (h : HL) (hc : create cfg s = .ok h) (hlen : MAX_RANGE * s.length ≤ 10 ^ 15)
+    (hp2 : (Spec.classify s).problems₂ = []) (h64 : (Spec.classify s).note64 = false) :
+    ∃ h', wcollExpand cfg h = .ok h' ∧ h'.Good ∧ h'.hosts = Spec.expandStr₂ s :=
+  Hostlist.expand_text cfg h15 h16 h18 h22 h23 s h hc hlen hp2 h64
+
 /-- `ShiftFits` DISCHARGED: every record of every list `hostlist_create` builds from a text of at
     most 10^15/16384 (≈ 6.1·10^10) bytes fits the buffer `hostrange_shift` allocates
     (argv strings are ≤ 128 KiB, WCOLL lines ≤ 2 KiB) -/
@@ -462,6 +483,16 @@ example : ∃ h, create Cfg.repaired "n[08-10]-ib  n9-ib".toList = .ok h ∧
     decide
   · rw [PdshVerif.C01.find_of_text Cfg.repaired rfl rfl rfl rfl rfl _ h hc _ (by unfold SmallName; decide)]
     decide
+/-- non-vacuity of `expand_text`: an arbitrary text (blank/comma runs, padding, a second pair of
+    brackets), through the theorems -/
+example : ∃ h h', create Cfg.repaired " r[1-2]n[08-09],,x7 ".toList = .ok h ∧
+    wcollExpand Cfg.repaired h = .ok h' ∧
+    h'.hosts = ["r1n08".toList, "r1n09".toList, "r2n08".toList, "r2n09".toList, "x7".toList] := by
+  obtain ⟨h, hc⟩ := (PdshVerif.Hostlist.create_iff_classify Cfg.repaired rfl rfl rfl rfl
+    " r[1-2]n[08-09],,x7 ".toList).mpr (by decide)
+  obtain ⟨h', e, _, hh⟩ := PdshVerif.C01.expand_text Cfg.repaired rfl rfl rfl rfl rfl _ h hc
+    (by decide) (by decide) (by decide)
+  exact ⟨h, h', hc, e, by rw [hh]; decide⟩
 /-- non-vacuity of `w_x_from_texts`: `pdsh -w foo[1-2]-[0-1],bar -x foo1-0,bar` (a word with TWO
     pairs of brackets; an exclusion that names a second-level host) goes on with foo1-1 foo2-0
     foo2-1 — through the theorem, the domain decided -/
